@@ -24,6 +24,21 @@ CHECKS = {
          "Same exploration as C02 with the decision oracles: every caller is decided within timeout_duration of its first poll; a caller arriving while fewer than limit admissions lie in the look-back window is admitted in that poll; rejected and cancelled callers never reach the inner service, admitted ones exactly once; from every state, after draining and two idle periods, a burst of limit callers is admitted at once.",
          "As C02. 'Spare capacity' is judged by the implementation-independent sufficient condition (fewer than limit admissions in the last period; last two periods for the sliding counter).",
          "4 C15"),
+ "C03": ("svcx", "model_checking",
+         "explicit-state BFS over event schedules of the real CircuitBreaker (with and without fallback) under a controlled scheduler and virtual clock",
+         "Every schedule of arrivals on clones, polls, drops, gated inner completions (ok/err, fast/slow), timer ticks and force_open of 3-4 callers is executed; before every action the lock-free state and the transition log are sampled; an action that begins with the breaker observed open less than wait_duration_in_open ago must start no inner call, and a not-yet-admitted caller polled then must resolve in that poll with the open-circuit error or the fallback value; all clones show one state.",
+         "Prompt executor; granularity one Future::poll; count- and time-based windows of size 1-2, wait 30 ms.",
+         "4 C03"),
+ "C04": ("seq", "model_checking",
+         "explicit-state BFS over operation histories of the real CircuitBreaker in lock-step with a set-valued reference model of the documented machine",
+         "All sequential histories up to the stated depth over {success, failure, slow success, slow failure, non-failure error, waits below/at the open wait and beyond the window, force_open, force_closed, reset} for a grid of 96 (quick) / 648+ (thorough) configurations run on the real breaker; after every operation state(), state_sync(), metrics().state and is_open() must agree with each other and with the reference machine, and whether the inner service was invoked must equal the machine's admission decision.",
+         "Points the documentation leaves open are set-valued (one fixed choice per history). Dedup on (model candidates, metrics snapshot); cross-checked without dedup at a smaller depth in the thorough tier.",
+         "4 C04"),
+ "C09": ("svcx", "model_checking",
+         "explicit-state BFS over event schedules of the real CircuitBreaker from a half-open-ready state",
+         "Every schedule of 3-4 callers arriving on clones while the breaker is (about to be) half-open, with gated trial calls completing ok/err in every order, is executed; for every half-open period in the transition log the inner calls started (not cancelled) must be <= permitted_calls_in_half_open and later arrivals must be rejected at once; from every state the breaker must still be able to admit a call within three wait periods.",
+         "Prompt executor; granularity one Future::poll; cancelled trial calls give their slot back (cancellation is outside C09's quantifier and is only used for the not-stranded probe).",
+         "4 C09"),
 }
 
 NOT_YET = {}
